@@ -178,6 +178,9 @@ def evaluate(rp, rng):
         if name == 'cbmm' and bucket == 'heavy-blur' and 0.0 < rp.get('pert', 1.0) ** 2 < 1e-7:
             # noise eigenvalues of the class scatter lie inside the Bingham trainer's duplicate-spreading eps (1e-8)
             bucket = 'heavy-blur:sub-eps-noise'
+        if name == 'cacgmm' and bucket == 'heavy-blur' and rp['iterations'] <= 2 and wrong == 1:
+            # one observation whose true class kept < 60 % of its start mass, first two iterations only (known finding)
+            bucket = 'heavy-blur:early-single'
         return ('%d of %d observations leave their true class after %d iterations (MAP != true class)'
                 % (wrong, mapc.size, rp['iterations'])), 'stable:map:%s:%s' % (name, bucket), None
     # fitted parameters point at the prototypes: always in the sense "closer to the own prototype than to any other";
